@@ -35,6 +35,28 @@ def PenInRange (p : Pen) : Prop :=
   (∀ v, p.under = some v → 0 ≤ v ∧ v ≤ 3) ∧ (∀ v, p.altfont = some v → -1 ≤ v ∧ v ≤ 9) ∧
   (∀ v, p.sizepos = some v → 0 ≤ v ∧ v ≤ 3)
 
+/-- `PenOk` excludes exactly the two triggers: a pen with values in range is `PenOk` unless it asks for an underline
+    style ≥ 2 on a terminal without `:` sub-parameters or for `TICKIT_PEN_SIZEPOS_SMALL`. -/
+theorem penOk_of_inRange (caps : Caps) (p : Pen) (hr : PenInRange p)
+    (hu : caps.colon = true ∨ ∀ v, p.under = some v → v ≤ 1)
+    (hs : p.sizepos ≠ some Tickit.Gen.Sgr.sizeposSmall) : PenOk caps p := by
+  obtain ⟨_, hunder, _, hsize⟩ := hr
+  constructor
+  · intro v hv
+    refine ⟨(hunder v hv).1, ?_⟩
+    rcases hu with hu | hu
+    · exact Or.inl hu
+    · exact Or.inr (hu v hv)
+  · intro v hv
+    have h03 := hsize v hv
+    have hne : v ≠ 1 := by
+      intro h1
+      apply hs
+      rw [hv, h1]
+      rfl
+    simp only [Tickit.Gen.Sgr.sizeposSuperscript, Tickit.Gen.Sgr.sizeposSubscript]
+    omega
+
 /-! ### the terminal after `start` -/
 
 /-- After the bytes the xterm driver writes when it starts, the terminal is in ground state with default rendering
